@@ -281,7 +281,7 @@ def table_desc(draw, max_levels=40):
         return draw(st.lists(_val(lo, hi), min_size=n, max_size=n))
 
     nc, nz, nd = len(climb_idx), len(cruise_idx), len(descent_idx)
-    tiny = st.sampled_from([0.0, 0.0, 0.0, -0.0, 5e-7, -5e-7])
+    tiny = st.sampled_from([0.0, 0.0, 0.0, -0.0, 5e-7, -5e-7, 1e-6, -1e-6])  # +-1e-6 = the library's own zero-ROCD tolerance (cruise at load time)
     t = {
         'fls': fls,
         'fl_mode': mode,
